@@ -561,6 +561,25 @@ class Gen:
         t = self._subq_table()
         src = self.base_source(t)
         src.force_qualify = True
+        if f.get("deep_corr") and f["correlated"] and self.chance(f["deep_corr"]):
+            # the subquery reads a derived table whose body projects a column of the *outer* query under its own name
+            # (bare when no inner column has that name): a correlated reference one level further down
+            inner_names = {c[0] for c in src.cols}
+            cands = [(s2, c2) for s2 in scope for c2 in s2.cols if c2[0] not in inner_names]
+            if cands:
+                s2, c2 = self.pick(cands)
+                dq = Query()
+                dq.from_ = src
+                dq.scope = [src]
+                oc = ("col", None if self.chance(0.7) and sum(1 for s3 in scope for c3 in s3.cols if c3[0] == c2[0]) == 1 else s2.alias,
+                      c2[0], c2[1], s2.alias)
+                keep = [c for c in src.cols if self.chance(0.6)] or [src.cols[0]]
+                dq.projs = [(oc, None)] + [(("col", src.alias, c[0], c[1], src.alias), None) for c in keep]
+                dq.out = [(c2[0], c2[1], c2[2])] + [(c[0], c[1], c[2]) for c in keep]
+                dq.tags = set()
+                src = Source("derived", self.new_alias("d"), query=dq, cols=list(dq.out))
+                src.force_qualify = True
+                self.tags.add("sub:derived-projects-outer-column")
         q = Query()
         q.from_ = src
         inner = [src]
